@@ -16,6 +16,8 @@ import ctorgen
 import ctorlib
 import c02
 
+RESERVED_METHODS = {"ShootNew", "With", "SetDefault", "MarshalJSON", "UnmarshalJSON"}
+
 TYPE_DIRS = [
     ["// shoot: getter"], ["// shoot: setter"], ["//shoot: getter;setter"], ["// shoot: getter", "// shoot: setter"],
     ["// Shoot: Getter"], ["// some type", "//shoot: setter;"], ["// shoot getter"], ["// note: shoot: getter"],
@@ -32,6 +34,8 @@ def gen_acc_pkg(rng, name, p_type_dir=0.35, p_exported_dir=0.0, **opts):
     base = dict(getset_dirs=True, p_under=0.012, p_tag=0.035, p_shadow=0.2, p_def=0.15, p_new=0.15)
     base.update(opts)
     pkg = ctorgen.gen_struct_pkg(rng, name, **base)
+    if hasattr(ctorgen, "strip_defs_of_embedded") and rng.random() < 0.9:
+        ctorgen.strip_defs_of_embedded(pkg)       # keep most packages out of two C02 finding classes
     for sd in pkg["structs"]:
         if rng.random() < p_type_dir:
             sd["comment"] = list(rng.choice(TYPE_DIRS))
@@ -108,6 +112,8 @@ def precheck(pkg, sd, selected):
             p = pascal(n)
             if p == "" or not ("a" <= n[:1] <= "z"):
                 return "bad"
+            if p in RESERVED_METHODS or "Set" + p in RESERVED_METHODS:
+                return "bad"            # K_ctor_method_name_collision
             for m in (p, "Set" + p):
                 methods.setdefault(m, []).append((len(path), ctorgen.type_string(t)))
     for m, lst in methods.items():
